@@ -623,7 +623,9 @@ func (l *Lexer) consumeQuotedContent(q string, raw, unicode bool, name string, n
 	}
 
 	if noPanic {
-		l.skipN(i)
+		// The literal is unclosed: consume the rest of the input. i itself may point past the end
+		// of the buffer when an escape sequence was truncated by the end of input.
+		l.skipN(len(l.Buffer) - l.pos)
 		return "", true
 	}
 
